@@ -29,7 +29,7 @@ var c06 = core.Register(&core.Prop{
 	Shards: func(tier string) int { return pickTier(tier, 4, 16) },
 	Floors: func(c map[string]int64, tier string) []string {
 		var out []string
-		for _, k := range []string{"op:not", "op:notnot", "op:cond", "op:and", "op:or", "op:nn", "branch_effect_cases", "identity_checked", "nested_cases"} {
+		for _, k := range []string{"op:not", "op:notnot", "op:cond", "op:and", "op:or", "op:nn", "branch_effect_cases", "identity_checked", "nested_cases", "dead_branch_cases"} {
 			if c[k] == 0 {
 				out = append(out, "coverage floor: no "+k)
 			}
@@ -350,6 +350,39 @@ var c06Effects = core.Mon(c06, "single-branch", func(w *core.W, c *EffectCase) {
 	}
 })
 
+// DeadBranchCase: the unselected branch would fail if it were evaluated (or even inspected).
+type DeadBranchCase struct {
+	Cond int    `json:"cond"` // leaf index
+	Live int    `json:"live"` // leaf index of the selected branch
+	Dead string `json:"dead"` // source of the unselected branch
+}
+
+var deadBranches = []string{"missingfn(1)", "missing.fn(2)", "null!.k", "abs('x')", "abs()", "a = 1", "[1] == [1]", "dm == dm", "left('abc', -1)", "regexp('a', '(')", "dst.Nope", "dfn(1, 2)", "1()", "rec()", "(missingfn(1), 2)", "[missingfn(1)]", "-missingfn(1)", "true ? missingfn(1) : 0"}
+
+var c06Dead = core.Mon(c06, "dead-branch", func(w *core.W, c *DeadBranchCase) {
+	w.Eval(1)
+	cond, live := tLeaves[c.Cond], tLeaves[c.Live]
+	var src string
+	if cond.Truthy {
+		src = "(" + cond.Src + ") ? (" + live.Src + ") : (" + c.Dead + ")"
+	} else {
+		src = "(" + cond.Src + ") ? (" + c.Dead + ") : (" + live.Src + ")"
+	}
+	var log []string
+	data := c06Data(&log)
+	v, err, panicked, pv := resolveIn(data, "["+src+"]")
+	w.Count("dead_branch_cases")
+	w.Nontrivial("dead:" + src)
+	if panicked || err != nil {
+		w.Violation("dead-branch", "C06/unselected-branch-evaluated", c, "the value of the selected branch "+live.Src, fmt.Sprint(pv, err), "only the selected branch may be evaluated: "+src)
+		return
+	}
+	ev, _, _, _ := resolveIn(data, "["+live.Src+"]")
+	if obs.SnapshotValues(v) != obs.SnapshotValues(ev) && !live.Ident {
+		w.Violation("dead-branch", "C06/cond:value", c, show(ev), show(v), src)
+	}
+})
+
 func randTNode(r *rand.Rand, depth int) *TNode {
 	if depth == 0 || r.Intn(4) == 0 {
 		return &TNode{K: "leaf", I: r.Intn(len(tLeaves))}
@@ -411,6 +444,15 @@ func runC06(w *core.W) {
 		w.Count("nested_cases")
 		if i%1501 == 0 {
 			w.Sample("nested", t.Src())
+		}
+	}
+	// the unselected branch may be anything, even something that cannot be evaluated
+	for i := range tLeaves {
+		for j, d := range deadBranches {
+			idx++
+			if w.Mine(idx) {
+				c06Dead(w, &DeadBranchCase{Cond: i, Live: (i*7 + j) % len(tLeaves), Dead: d})
+			}
 		}
 	}
 	// single-branch evaluation
